@@ -16,7 +16,7 @@ from .facts import MissingAnchor, rv_operands
 NOISE_CALLS = {
     'branch', 'from_residual', 'from', 'into', 'clone', 'deref', 'deref_mut', 'borrow', 'as_ref', 'eq', 'ne',
     'lt', 'le', 'gt', 'ge', 'cmp', 'partial_cmp', 'drop', 'default', 'fmt', 'into_iter', 'next', 'as_mut',
-    'map_err', 'ok_or', 'unwrap_or', 'is_some', 'is_none', 'not', 'index', 'index_mut',
+    'map_err', 'ok_or', 'unwrap_or', 'is_some', 'is_none', 'not',
 }
 
 
@@ -191,6 +191,7 @@ class ArmSummarizer:
     def __init__(self, g):
         self.g = g
         self._writes = {}
+        self._counts = {}
 
     def body_summary(self, path, depth=3):
         """(writes to *arg1, calls, errs) of a whole function body, transitively through private callees"""
@@ -234,7 +235,9 @@ class ArmSummarizer:
                 names.append(str(p[2]) if p[2] is not None else str(p[1]))
         return base, names
 
-    def summarize_blocks(self, fn, blocks, receiver=1, depth=4):
+    def summarize_blocks(self, fn, blocks, receiver=1, depth=4, count=None):
+        """count: optional collections.Counter that receives one increment per (non-noise) call site name
+        (private callees are inlined and contribute their own call sites)"""
         g = self.g
         writes = set()
         calls = set()
@@ -262,12 +265,16 @@ class ArmSummarizer:
                 f = t['f']
                 name = f.get('name')
                 tgts = [] if 'ptr' in f else g.callee_targets(f)
-                private = [x for x in tgts if g.fns[x].vis != 'pub' or g.fns[x].kind == 'Closure']
+                # private in-crate callees are inlined into the summary; methods of (public) traits never are:
+                # `add_sized` vs `wrapping_add_sized` is exactly the kind of difference a summary must keep
+                private = [x for x in tgts if (g.fns[x].vis != 'pub' or g.fns[x].kind == 'Closure') and not f.get('trait')]
                 inline = bool(tgts) and len(private) == len(tgts) and depth > 0
                 if 'ptr' in f:
                     calls.add('<fnptr>')
                 elif name and name not in NOISE_CALLS and not inline:
                     calls.add(name)
+                    if count is not None:
+                        count[name] += 1
                 # destination write
                 d = t['d']
                 if len(d) > 1:
@@ -288,6 +295,15 @@ class ArmSummarizer:
                         if not (is_priv or on_recv):
                             continue
                         w2, c2, e2 = self.body_summary(tgt, depth - 1)
+                        if count is not None and is_priv:
+                            sub = self._counts.get(tgt)
+                            if sub is None:
+                                from collections import Counter as _C
+                                sub = _C()
+                                cf2 = g.fns[tgt]
+                                self._counts[tgt] = sub
+                                self.summarize_blocks(cf2, cf2.reach, 1, depth - 1, sub)
+                            count.update(sub)
                         if on_recv:
                             prefix = '.'.join(rnames)
                             for w in w2:
@@ -296,6 +312,15 @@ class ArmSummarizer:
                             calls |= c2
                             errs |= e2
         return writes, calls, errs
+
+    def param_field_reads(self, fn, blocks):
+        """like field_reads, for every parameter: 'self.a.b' / 'argN.a'"""
+        out = set()
+        for i in range(1, fn.argc + 1):
+            nm = 'self' if i == 1 and (fn.lname(1) in (None, 'self')) and fn.impl_self_adt else (fn.lname(i) or 'arg%d' % i)
+            for r in self.field_reads(fn, blocks, i):
+                out.add('%s.%s' % (nm, r))
+        return out
 
     def field_reads(self, fn, blocks, receiver=1):
         """field paths (<= 2 levels) of the receiver that the blocks read (copy, borrow, pass to a call)"""
